@@ -1,6 +1,6 @@
 """Property -> rules."""
 from .prog import Program
-from . import rules_cg, lalr, rules_dispatch, rules_wrap, rules_mem, rules_state, rules_dstr, rules_recurse, rules_misc, rules_critic, rules_esc
+from . import rules_cg, lalr, rules_dispatch, rules_wrap, rules_mem, rules_state, rules_dstr, rules_recurse, rules_misc, rules_critic, rules_esc, rules_wrapper
 
 _progs = {}
 
@@ -96,7 +96,20 @@ def c16(chk, tier):
     rules_misc.r_byteclass(P(), chk)
 
 
+def c20(chk, tier):
+    chk.explanation = "Static: R-WRAPPER-ORDER (header/footer bracket the body under one condition; snippet wins; control-key set; who reads metadata)."
+    rules_wrapper.r_wrapper_order(P(), chk)
+    rules_wrapper.r_metakey(P(), chk)
+
+
+def c11(chk, tier):
+    chk.explanation = "Static: R-METAKEY one key normal form at store and at every comparison / lookup (necessary condition only)."
+    rules_wrapper.r_metakey(P(), chk)
+
+
 PROPS = {
+    "C11": ("other", c11),
+    "C20": ("other", c20),
     "C16": ("other", c16),
     "C14": ("other", c14),
     "C12": ("other", c12),
